@@ -106,20 +106,69 @@ theorem C08_refused_heap_unchanged (m : M) (code : Nat) : (m.log code).heap = m.
 
 /-- storing an array in itself directly is always detected -/
 theorem C08_self_insertion_detected (m : M) (id : Nat) : wouldCycle m id (.ref id) = true := by
-  simp [wouldCycle]
+  simp [wouldCycle, reachesC]
 
-/-- … and so is storing something that contains it (one level of nesting shown; `reaches` follows
-arrays to any depth) -/
+/-- … and so is storing something that contains it (one level of nesting shown; `reachesC` follows
+arrays and hash maps to any depth) -/
 theorem C08_nested_self_insertion_detected (m : M) (id j : Nat)
     (hmem : .ref id ∈ m.arr j) : wouldCycle m id (.ref j) = true := by
-  simp only [wouldCycle, Bool.or_eq_true, beq_iff_eq]
+  have hlen : m.heap.length + m.maps.length + 1 = (m.heap.length + m.maps.length - 1 + 1) + 1 := by
+    have : j < m.heap.length := by
+      unfold M.arr at hmem
+      rcases Nat.lt_or_ge j m.heap.length with h | h
+      · exact h
+      · simp [List.getD, List.getElem?_eq_none h] at hmem
+    omega
+  unfold wouldCycle
+  rw [hlen]
+  simp only [reachesC, List.any_cons, List.any_nil, Bool.or_false, Bool.not_false, Bool.true_and,
+    Bool.or_eq_true, beq_iff_eq]
   right
-  unfold reaches
   simp only [List.any_eq_true]
   exact ⟨.ref id, hmem, by simp⟩
+
+/-- a hash map stored in itself (as key or value) is detected -/
+theorem C08_map_self_insertion_detected (m : M) (id : Nat) : wouldCycleMap m id (.mapref id) = true := by
+  simp [wouldCycleMap, reachesC]
+
+/-- an array that holds the map cannot be stored in the map -/
+theorem C08_map_through_array_detected (m : M) (id j : Nat)
+    (hmem : .mapref id ∈ m.arr j) : wouldCycleMap m id (.ref j) = true := by
+  have hlen : m.heap.length + m.maps.length + 1 = (m.heap.length + m.maps.length - 1 + 1) + 1 := by
+    have : j < m.heap.length := by
+      unfold M.arr at hmem
+      rcases Nat.lt_or_ge j m.heap.length with h | h
+      · exact h
+      · simp [List.getD, List.getElem?_eq_none h] at hmem
+    omega
+  unfold wouldCycleMap
+  rw [hlen]
+  simp only [reachesC, List.any_cons, List.any_nil, Bool.or_false, Bool.not_true, Bool.false_and,
+    Bool.false_or]
+  simp only [List.any_eq_true]
+  exact ⟨.mapref id, hmem, by simp⟩
+
+/-- a map that holds the array (as a value) cannot be stored in the array -/
+theorem C08_array_through_map_detected (m : M) (id j : Nat) (k : Val)
+    (hmem : (k, .ref id) ∈ m.map j) : wouldCycle m id (.mapref j) = true := by
+  have hlen : m.heap.length + m.maps.length + 1 = (m.heap.length + m.maps.length - 1 + 1) + 1 := by
+    have : j < m.maps.length := by
+      unfold M.map at hmem
+      rcases Nat.lt_or_ge j m.maps.length with h | h
+      · exact h
+      · simp [List.getD, List.getElem?_eq_none h] at hmem
+    omega
+  unfold wouldCycle
+  rw [hlen]
+  simp only [reachesC, List.any_cons, List.any_nil, Bool.or_false, Bool.false_and, Bool.false_or]
+  simp only [List.any_eq_true, List.mem_flatMap]
+  exact ⟨.ref id, ⟨(k, .ref id), hmem, by simp⟩, by simp⟩
 
 /-! ## Non-vacuity -/
 
 example : wouldCycle { heap := [[num 1], [.ref 0]] } 0 (.ref 1) = true := by decide
+example : wouldCycleMap { heap := [[.mapref 0]], maps := [[]] } 0 (.ref 0) = true := by decide
+example : wouldCycle { heap := [[]], maps := [[(num 1, .ref 0)]] } 0 (.mapref 0) = true := by decide
+example : wouldCycle { heap := [[], [num 2]], maps := [[(num 1, .ref 1)]] } 0 (.mapref 0) = false := by decide
 
 end Sqf.Props.C08
